@@ -1,6 +1,7 @@
 import Driver.Proto
 import Driver.OpsGen
 import XsdataModel.Gen.Attrs
+import XsdataModel.Gen.DtdAttrs
 open Lean Proto Py Xs.Gen
 
 namespace OpsGenAttrs
@@ -60,6 +61,17 @@ def run (op : String) (a : Json) : Option (Except String Json) :=
       pure <| ok (jList (fun x => jGAttr (sanitize x)) (← (← asArr (fld a "attrs")).mapM dGAttr))
   | "gen.attr_fields" => some do
       pure <| ok (jList (fun x => jField (fieldOf (sanitize x))) (← (← asArr (fld a "decls")).mapM dDecl))
+  | "gen.dtd_attr" | "gen.dtd_attr_fields" => some do
+      let decls ← (← asArr (fld a "decls")).mapM fun j => do
+        let k ← match fld j "default" with
+          | .str "required" => pure DtdDefault.required
+          | .str "implied" => pure DtdDefault.implied
+          | .str "fixed" => pure DtdDefault.fixed
+          | .str "none" => pure DtdDefault.noneD
+          | _ => .error "bad dtd default"
+        pure ({ default := k, value := ← dOptS (fld j "value") } : DtdAttrDecl)
+      if op == "gen.dtd_attr" then pure <| ok (jList (fun d => jGAttr (dtdAttr d)) decls)
+      else pure <| ok (jList (fun d => jField (dtdAttrField d)) decls)
   | _ => none
 
 end OpsGenAttrs
